@@ -193,6 +193,7 @@ type c11State struct {
 	client *pgdump.RemoteClient
 	reader *pgdump.TOASTReader
 	scan   *pgdump.SecretScanner
+	opts   *pgdump.Options // one options value shared by all repetitions of dump_shared_options
 }
 
 // an operation returns its output text and the number of "items whose order could leak" it saw
@@ -261,6 +262,22 @@ func c11Dump(st *c11State) *pgdump.DumpResult {
 
 func init() {
 	// ---- data-directory dump and the three renderings
+	// one Options value (layout auto-detection on) reused for every repetition: it is an input, must come back unchanged, and
+	// the dump must not depend on what an earlier dump left in it (seeded change C11-10)
+	c11Ops["dump_shared_options"] = func(st *c11State, param string, rep int) (string, int) {
+		if st.opts == nil {
+			st.opts = &pgdump.Options{SkipSystemTables: true}
+		}
+		before := *st.opts
+		r, err := pgdump.DumpDataDir(st.env.dir, st.opts)
+		if *st.opts != before {
+			return "MUTATED-INPUT:options", 0
+		}
+		if err != nil {
+			return "err", 0
+		}
+		return c11DumpText(r), c11MaxTables(r)
+	}
 	c11Ops["dump_json"] = func(st *c11State, param string, rep int) (string, int) {
 		var o *pgdump.Options
 		if p := c11Split(param); len(p) == 2 {
@@ -546,7 +563,13 @@ func init() {
 	}
 	// VerifyFileChecksums / computePageChecksum on an in-memory buffer: param = relative path
 	c11Ops["file_checksums"] = func(st *c11State, param string, rep int) (string, int) {
-		b := st.env.buffers()
+		// in the concurrent run every goroutine verifies the SAME buffer (the pages carry non-zero pd_checksum fields): code
+		// that zeroes the checksum field in place "temporarily" instead of working on a copy shows up as a wrong stored
+		// checksum / a modified buffer seen by another goroutine (seeded change C11-12)
+		b := st.bufs
+		if b == nil {
+			b = st.env.buffers()
+		}
 		d := b.bufs[param]
 		r := pgdump.VerifyFileChecksums(d, 0)
 		t := c11JSON(r)
@@ -598,7 +621,14 @@ func init() {
 		env := c11Materialise(a[4:])
 		defer env.cleanup()
 		st := &c11State{env: env}
+		// the package-level lookup tables (type names, array element types, ...) are constants of the program: an operation
+		// that adds to them shares mutable state between calls (and races when called concurrently); seeded change C11-11
+		tables := pgdump.VerifPackageTables()
+		defer func() { _ = tables }()
 		first, n := op(st, a[3], 0)
+		if pgdump.VerifPackageTables() != tables {
+			return "shared-state:package-level tables modified by " + a[0]
+		}
 		if strings.HasPrefix(first, "MUTATED-INPUT") {
 			return "MUTATED-INPUT:" + a[0]
 		}
